@@ -1,1 +1,197 @@
-From Verif Require Import QuickShift.
+(* C16 — QuickShift returns the basin partition of the density-ascent graph.
+   Statements only; every proof is `exact <lemma>` from Proofs/QuickShiftP.v.
+   Model: Model/QuickShift.v.  [D] is the squared distance matrix after
+   np.fill_diagonal(D, inf) (None = +inf), [w] the weights, [wt w i] = w[i], [dget D i j] = D[i][j];
+   [fit_cut D w cut] / [fit_gab D w shell] are QuickShift.fit with per-point cut-offs resp. with
+   gabriel_shell (result: idxroot, None = the inner while loop ran out of fuel n);
+   [next_cut D w cut c] = _qs_next(c, idmindist[c], w, D, cut[c]), [next_gab D w shell c] =
+   _gs_next(c, w, D, gabriel); [oget R i] = labels_[i]; [centres R] = cluster_centers_idx_.
+   [sq_mat n D]: D is n x n.  [ext_lt] is < on Z + {inf}; [ext_le a b] := not (b < a).
+   All theorems hold for every n, every matrix, all weights, cut-offs and shell depths. *)
+From Verif Require Import ListX QuickShift QuickShiftP.
+Close Scope Z_scope.
+Open Scope nat_scope.
+
+(* fuel n suffices: the out-of-fuel value is unreachable *)
+Theorem C16_terminates :
+  forall n D w cut shell, sq_mat n D -> length w = n ->
+    fit_cut D w cut <> None /\ fit_gab D w shell <> None.
+Proof. exact (fun n D w cut shell HD Hw => fit_terminates n D w HD Hw cut shell). Qed.
+Print Assumptions C16_terminates.
+
+(* every point is labelled with a cluster centre, and every centre labels itself *)
+Theorem C16_labels_are_roots :
+  forall n D w cut shell R, sq_mat n D -> length w = n ->
+    fit_cut D w cut = Some R \/ fit_gab D w shell = Some R ->
+    length R = n /\ forall i, i < n -> exists r, oget R i = Some r /\ r < n /\ oget R r = Some r.
+Proof.
+  exact (fun n D w cut shell R HD Hw E =>
+    match E with
+    | or_introl E =>
+        let (HL, HS) := cut_labels n D w HD Hw cut R E in
+        conj HL (fun i Hi => match HS i Hi with
+                             | ex_intro _ r (conj A (conj B (conj _ (conj C _)))) => ex_intro _ r (conj A (conj B C)) end)
+    | or_intror E =>
+        let (HL, HS) := gab_labels n D w HD Hw shell R E in
+        conj HL (fun i Hi => match HS i Hi with
+                             | ex_intro _ r (conj A (conj B (conj _ (conj C _)))) => ex_intro _ r (conj A (conj B C)) end)
+    end).
+Qed.
+Print Assumptions C16_labels_are_roots.
+
+(* labels_[i] is the fixed point reached from i by iterating the successor rule: path
+   propagation attaches every path to its FINAL root.  First part: it is such a limit;
+   second part: any fixed point reachable from i is the label (the limit is unique). *)
+Theorem C16_label_is_ascent_limit_cut :
+  forall n D w cut R, sq_mat n D -> length w = n -> fit_cut D w cut = Some R ->
+    forall i, i < n ->
+      (exists r k, oget R i = Some r /\ r = Nat.iter k (next_cut D w cut) i /\ next_cut D w cut r = r) /\
+      (forall r k, r = Nat.iter k (next_cut D w cut) i -> next_cut D w cut r = r -> oget R i = Some r).
+Proof.
+  exact (fun n D w cut R HD Hw E i Hi =>
+    conj (match proj2 (cut_labels n D w HD Hw cut R E) i Hi with
+          | ex_intro _ r (conj A (conj _ (conj B (conj _ (ex_intro _ k K))))) =>
+              ex_intro _ r (ex_intro _ k (conj A (conj K B))) end)
+         (fun r k Hr Hf => cut_limit n D w HD Hw cut R i r k E Hi Hr Hf)).
+Qed.
+Print Assumptions C16_label_is_ascent_limit_cut.
+
+Theorem C16_label_is_ascent_limit_gab :
+  forall n D w shell R, sq_mat n D -> length w = n -> fit_gab D w shell = Some R ->
+    forall i, i < n ->
+      (exists r k, oget R i = Some r /\ r = Nat.iter k (next_gab D w shell) i /\ next_gab D w shell r = r) /\
+      (forall r k, r = Nat.iter k (next_gab D w shell) i -> next_gab D w shell r = r -> oget R i = Some r).
+Proof.
+  exact (fun n D w shell R HD Hw E i Hi =>
+    conj (match proj2 (gab_labels n D w HD Hw shell R E) i Hi with
+          | ex_intro _ r (conj A (conj _ (conj B (conj _ (ex_intro _ k K))))) =>
+              ex_intro _ r (ex_intro _ k (conj A (conj K B))) end)
+         (fun r k Hr Hf => gab_limit n D w HD Hw shell R i r k E Hi Hr Hf)).
+Qed.
+Print Assumptions C16_label_is_ascent_limit_gab.
+
+(* cluster_centers_idx_ is exactly the set of fixed points of the successor rule *)
+Theorem C16_centres_are_fixed_points :
+  forall n D w cut shell R c, sq_mat n D -> length w = n ->
+    (fit_cut D w cut = Some R -> (In c (centres R) <-> c < n /\ next_cut D w cut c = c)) /\
+    (fit_gab D w shell = Some R -> (In c (centres R) <-> c < n /\ next_gab D w shell c = c)).
+Proof.
+  exact (fun n D w cut shell R c HD Hw =>
+    conj (cut_centres n D w HD Hw cut R c) (gab_centres n D w HD Hw shell R c)).
+Qed.
+Print Assumptions C16_centres_are_fixed_points.
+
+(* idmindist[c] = np.argmin(D[c]) is the first index of the row minimum *)
+Theorem C16_nearest_neighbour :
+  forall row, row <> [] ->
+    let nn := argmin_row row in
+    nn < length row /\
+    forall j, j < length row ->
+      ext_le (nth nn row None) (nth j row None) /\ (j < nn -> ext_lt (nth nn row None) (nth j row None) = true).
+Proof. exact argmin_row_spec. Qed.
+Print Assumptions C16_nearest_neighbour.
+
+(* cut-off rule.  A point j is admissible for c if it has higher weight and lies within c's
+   cut-off.  If some point is admissible the successor is a nearest admissible point, the
+   first in index order among equally near ones; otherwise it is the nearest neighbour if
+   that has higher weight, else c itself. *)
+Theorem C16_next_spec_cut :
+  forall n D w cut c, sq_mat n D -> length w = n ->
+    let adm j := j < n /\ (wt w c < wt w j)%Z /\ ext_lt (dget D c j) (Some (nth c cut 0%Z)) = true in
+    let nn := argmin_row (nth c D []) in
+    let nx := next_cut D w cut c in
+    ((exists j, adm j) ->
+       adm nx /\ forall j, adm j -> ext_le (dget D c nx) (dget D c j) /\ (dget D c j = dget D c nx -> nx <= j)) /\
+    ((forall j, ~ adm j) -> nx = if (wt w c <? wt w nn)%Z then nn else c).
+Proof. exact (fun n D w cut c HD Hw => next_cut_spec n D w Hw cut c). Qed.
+Print Assumptions C16_next_spec_cut.
+
+(* c is a centre iff no higher-weight point lies within c's cut-off and c's nearest
+   neighbour is not higher *)
+Theorem C16_centre_spec_cut :
+  forall n D w cut c, sq_mat n D -> length w = n ->
+    (next_cut D w cut c = c <->
+     (forall j, ~ (j < n /\ (wt w c < wt w j)%Z /\ ext_lt (dget D c j) (Some (nth c cut 0%Z)) = true)) /\
+     ~ (wt w c < wt w (argmin_row (nth c D [])))%Z).
+Proof. exact (fun n D w cut c HD Hw => centre_spec_cut n D w Hw cut c). Qed.
+Print Assumptions C16_centre_spec_cut.
+
+(* Gabriel rule: admissible = higher weight, inside the shell of c (neighs after
+   gabriel_shell - 1 expansions of row c of the Gabriel graph), at finite distance *)
+Theorem C16_next_spec_gab :
+  forall n D w shell c, sq_mat n D -> length w = n ->
+    let adm j := j < n /\ (wt w c < wt w j)%Z /\ ext_lt (dget D c j) None = true /\
+                 nth j (shell_set (gabriel D) shell c) false = true in
+    let nx := next_gab D w shell c in
+    ((exists j, adm j) ->
+       adm nx /\ forall j, adm j -> ext_le (dget D c nx) (dget D c j) /\ (dget D c j = dget D c nx -> nx <= j)) /\
+    ((forall j, ~ adm j) -> nx = c).
+Proof. exact (fun n D w shell c HD Hw => next_gab_spec n D w Hw shell c). Qed.
+Print Assumptions C16_next_spec_gab.
+
+Theorem C16_centre_spec_gab :
+  forall n D w shell c, sq_mat n D -> length w = n ->
+    (next_gab D w shell c = c <->
+     forall j, ~ (j < n /\ (wt w c < wt w j)%Z /\ ext_lt (dget D c j) None = true /\
+                  nth j (shell_set (gabriel D) shell c) false = true)).
+Proof. exact (fun n D w shell c HD Hw => centre_spec_gab n D w Hw shell c). Qed.
+Print Assumptions C16_centre_spec_gab.
+
+(* a point of maximal weight is always a centre *)
+Theorem C16_max_weight_is_centre :
+  forall n D w cut shell R c, sq_mat n D -> length w = n -> c < n ->
+    (forall j, j < n -> (wt w j <= wt w c)%Z) ->
+    fit_cut D w cut = Some R \/ fit_gab D w shell = Some R -> oget R c = Some c.
+Proof.
+  exact (fun n D w cut shell R c HD Hw Hc Hmax E =>
+    match E with
+    | or_introl E => cut_max_weight n D w HD Hw cut shell R c E Hc Hmax
+    | or_intror E => gab_max_weight n D w HD Hw cut shell R c E Hc Hmax
+    end).
+Qed.
+Print Assumptions C16_max_weight_is_centre.
+
+(* the graph produced by the double loop of _get_gabriel_graph (j starting at i, both
+   triangles written from row i) is the brute-force Gabriel graph: i -- j iff no third
+   point lies strictly inside the ball with diameter ij *)
+Theorem C16_gabriel_bruteforce :
+  forall n D i j, length D = n ->
+    (forall a b, a < n -> b < n -> dget D a b = dget D b a) -> i < n -> j < n ->
+    (nth j (nth i (gabriel D) []) false = true <->
+     i <> j /\ ~ exists k, k < n /\ ext_lt (ext_add (dget D i k) (dget D j k)) (dget D i j) = true).
+Proof. exact gabriel_bruteforce. Qed.
+Print Assumptions C16_gabriel_bruteforce.
+
+(* weights enter only through <: any strictly increasing re-mapping leaves the labels unchanged *)
+Theorem C16_weight_remap :
+  forall (f : Z -> Z) n D w cut shell,
+    (forall a b, (a < b)%Z <-> (f a < f b)%Z) -> sq_mat n D -> length w = n ->
+    fit_cut D (map f w) cut = fit_cut D w cut /\ fit_gab D (map f w) shell = fit_gab D w shell.
+Proof.
+  exact (fun f n D w cut shell Hf HD Hw =>
+    conj (fit_cut_remap f Hf n D w cut HD Hw) (fit_gab_remap f Hf n D w shell HD Hw)).
+Qed.
+Print Assumptions C16_weight_remap.
+
+(* non-vacuity: six points on a line at 0,1,2,10,11,12 with weights 1,5,3,2,9,4 (squared
+   distances); cut-off 5 gives the basins {0,1,2} -> 1 and {3,4,5} -> 4, a huge cut-off
+   merges everything into the heaviest point through the chain 0 -> 1 -> 4; the Gabriel graph
+   of collinear points is the path 0-1-2-3-4-5, so shell 1 gives the two basins, shell 3 one *)
+Example C16_nonvacuous :
+  let D := [[None; Some 1; Some 4; Some 100; Some 121; Some 144];
+            [Some 1; None; Some 1; Some 81; Some 100; Some 121];
+            [Some 4; Some 1; None; Some 64; Some 81; Some 100];
+            [Some 100; Some 81; Some 64; None; Some 1; Some 4];
+            [Some 121; Some 100; Some 81; Some 1; None; Some 1];
+            [Some 144; Some 121; Some 100; Some 4; Some 1; None]]%Z in
+  let w := [1; 5; 3; 2; 9; 4]%Z in
+  sq_mat 6 D /\ length w = 6 /\
+  fit_cut D w [5; 5; 5; 5; 5; 5]%Z = Some (map Some [1; 1; 1; 4; 4; 4]) /\
+  fit_cut D w [500; 500; 500; 500; 500; 500]%Z = Some (map Some [4; 4; 4; 4; 4; 4]) /\
+  next_cut D w [500; 500; 500; 500; 500; 500]%Z 0 = 1 /\
+  fit_gab D w 1 = Some (map Some [1; 1; 1; 4; 4; 4]) /\ fit_gab D w 3 = Some (map Some [4; 4; 4; 4; 4; 4]) /\
+  nth 3 (nth 2 (gabriel D) []) false = true /\ nth 3 (nth 1 (gabriel D) []) false = false /\
+  centres (map Some [1; 1; 1; 4; 4; 4]) = [1; 4].
+Proof.
+  cbv zeta. split; [split; [reflexivity|repeat constructor]|]. repeat split; vm_compute; reflexivity.
+Qed.
